@@ -26,6 +26,7 @@ package chain
 //@ spec func maxBond(mu state.Mutable, tx *chain.Transaction) int = ite(len(maxRaw(mu, tx)) > 0, be64(maxRaw(mu, tx), 0), 0)
 
 //@ func Bonder.Bond props C38
+//@   modifies dbmap(b.db)[]
 //@   requires wfdb(dbmap(b.db))
 //@   requires len(maxRaw(mutable, tx)) == 0 || len(maxRaw(mutable, tx)) == 8
 //@   ensures wfdb(dbmap(b.db))
@@ -39,6 +40,7 @@ package chain
 // Unbond (C38): releases exactly the fee recorded for the transaction, once: the record is
 // deleted together with the subtraction, and a transaction without a record changes nothing.
 //@ func Bonder.Unbond props C38
+//@   modifies dbmap(b.db)[]
 //@   requires wfdb(dbmap(b.db))
 //@   requires has(dbmap(b.db), tKey(tx)) ==> rec(dbmap(b.db), sKey(tx)) >= rec(dbmap(b.db), tKey(tx))
 //@   ensures wfdb(dbmap(b.db))
